@@ -346,6 +346,77 @@ def fault_at_jth_node(tier_name):
     return [rec]
 
 
+def fault_at_jth_node_sast(tier_name):
+    """E3 cells, SAST-driven: the real DefectDojo avoid-insecure-deserialization transformer (it reports `pickle.loads`
+    findings as unfixed itself and fixes `yaml.load`) over a module with THREE findings of one rule, instrumented to
+    raise at a SYMBOLIC visit index j.  For every cell of j: either the run completes (the yaml site rewritten, the two
+    pickle findings unfixed) or the file is untouched, listed failed, and EVERY one of its three findings is reported
+    unfixed - also those the transformer had already reported before the fault."""
+    from codemodder.codetf import Finding, Rule
+    from codemodder.result import LineInfo, Location
+    from core_codemods.defectdojo.results import DefectDojoResult
+    from core_codemods.defectdojo.semgrep.avoid_insecure_deserialization import RULE_ID, AvoidInsecureDeserializationTransformer
+    from vlib import symint
+
+    SRC = "import pickle\nimport yaml\n\nfirst = pickle.loads(blob)\nsecond = yaml.load(data)\nthird = pickle.loads(other)\n"
+
+    class _Loc(Location):
+        pass
+
+    class _Res(DefectDojoResult):
+        def __hash__(self):
+            return id(self)
+
+    space = symint.Space(["j"])
+
+    def run(w):
+        j = space.var("j")
+
+        class Faulty(AvoidInsecureDeserializationTransformer):
+            count = 0
+
+            def on_visit(self, node):
+                Faulty.count += 1
+                if j == Faulty.count:
+                    raise Boom()
+                return super().on_visit(node)
+
+        fp = FakePath(SRC.encode())
+        results = []
+        for fid, line in (("21", 4), ("22", 5), ("23", 6)):
+            finding = Finding(id=fid, rule=Rule(id=RULE_ID, name="n", url=None))
+            results.append(_Res(finding_id=fid, rule_id=RULE_ID, locations=[_Loc(file=Path("f.py"), start=LineInfo(line), end=LineInfo(line))], finding=finding))
+        fc = skel.FileContext(Path("/d"), fp, [], [], results)
+        try:
+            cs = LibcstTransformerPipeline(Faulty).apply(skel.Ctx(False), fc, results)
+        except Exception as e:  # noqa
+            return "exception escaped apply(): %s" % type(e).__name__
+        unfixed = sorted({u.id for u in fc.unfixed_findings})
+        if fc.failures:
+            if fp.writes or cs is not None or [str(p) for p in fc.failures] != ["/d/f.py"]:
+                return "j=%d: failed file was written or reported changed" % w["j"]
+            if unfixed != ["21", "22", "23"]:
+                return "j=%d: the file failed but only findings %r of ['21', '22', '23'] are reported unfixed" % (w["j"], unfixed)
+            return None
+        if cs is None or len(fp.writes) != 1 or b"SafeLoader" not in fp.content:
+            return "j=%d: no fault reached, but the yaml site was not rewritten" % w["j"]
+        if unfixed != ["21", "23"]:
+            return "j=%d: fault-free run reports unfixed %r, expected the two pickle findings" % (w["j"], unfixed)
+        return None
+
+    done, runs, queries, fixpoint = symint.explore(space, run, max_rounds=200)
+    bad = {k: v for k, v in done.items() if v}
+    rec = {"name": "fault:at-the-j-th-visited-node:sast", "engine": "E3-cells+z3", "evaluations": runs, "distinct_nontrivial": len(done), "z3_checks": queries,
+           "sample": {"cells": len(done), "fixpoint": fixpoint, "failing_cells": len(bad)}}
+    if bad:
+        rec.update(verdict="violation", detail=sorted(bad.values())[0], replay="")
+    elif not fixpoint:
+        rec.update(verdict="inconclusive", detail="cell refinement did not reach a fixpoint")
+    else:
+        rec["verdict"] = "discharged"
+    return [rec]
+
+
 def planted_swallowed_failure(kind: int, nf: int) -> bool:
     """Self-test: a pipeline that fails without recording the failure must be refuted.
     pre: 1 <= kind < 4 and 0 <= nf <= 1
@@ -390,6 +461,7 @@ SPEC = {
         "BaseCodemod.apply / _apply / _process_file, FindAndFixCodemod.get_files_to_analyze",
         "codemodder.codemodder.apply_codemods (two codemods in sequence)",
         "InvertedBooleanCheckTransformer run through LibcstTransformerPipeline with a fault at a symbolic visit index (E3 cells)",
+        "AvoidInsecureDeserializationTransformer (DefectDojo, reports some findings unfixed itself) with three findings of one rule and a fault at a symbolic visit index (E3 cells)",
         "CodemodExecutionContext.process_results / add_changesets / add_failures / add_unfixed_findings / get_*",
     ],
     "bounds": {
@@ -403,7 +475,7 @@ SPEC = {
     ],
     "stubs": ["file (FakePath)", "ThreadPoolExecutor (SerialExecutor)", "transformers", "logger", "expat", "TemporaryFile", "CodemodExecutionContext constructed for real with no registry/providers/repo manager"],
     "outside": ["NUL bytes and other decoder details", "process exit status (C20)", "faults inside transformers other than invert-boolean-check"],
-    "drivers": [fault_at_jth_node],
+    "drivers": [fault_at_jth_node, fault_at_jth_node_sast],
     "xh": [
         Xh("fault_libcst", 150, 300),
         Xh("fault_regex", 120, 300),
